@@ -29,6 +29,7 @@ mod tlv;
 mod kernels;
 mod fakenode;
 mod scen_height;
+mod scen_provider;
 
 use serde_json::{json, Value};
 
@@ -53,6 +54,7 @@ fn main() {
             json!({ "results": outs })
         }
         "height" => scen_height::run_height(&input),
+        "provider" => scen_provider::run(&input),
         "poll_loop" => scen_height::run_poll_loop(&input),
         k => kernels::run(k, &input),
     };
